@@ -48,10 +48,10 @@ def rand_history(seed: int) -> list:
         tokens = ml.project(par)
         slots = [t["s"] for t in tokens if t["k"] == "t"]
         total = sum(len(s) for s in slots)
-        kind = rng.choice(["wrap_offset", "wrap_offset", "wrap_pattern", "mark_occurrence", "mark_position", "mark_range", "strip_tags", "delete"])
+        kind = rng.choice(["wrap_offset", "wrap_offset", "wrap_pattern", "mark_occurrence", "mark_position", "mark_range", "mark_content", "strip_tags", "delete"])
         if kind == "wrap_offset":
             o = {"op": kind, "tag": rng.choice(["span", "a"]), "off": rng.randint(0, total + 1), "len": rng.randint(0, 4)}
-        elif kind in ("wrap_pattern", "mark_occurrence"):
+        elif kind in ("wrap_pattern", "mark_occurrence", "mark_content"):
             if slots and rng.random() < 0.85:
                 s = rng.choice(slots)
                 a = rng.randrange(len(s))
@@ -60,10 +60,12 @@ def rand_history(seed: int) -> list:
                 p = cps("zz")
             if kind == "wrap_pattern":
                 o = {"op": kind, "tag": rng.choice(["span", "a"]), "p": p}
+            elif kind == "mark_content":
+                o = {"op": kind, "p": p, "nth": rng.randint(0, 1), "alone": step == nsteps - 1}
             else:
-                o = {"op": kind, "p": p, "nth": rng.randint(0, 2), "before": rng.random() < 0.5}
+                o = {"op": kind, "p": p, "nth": rng.randint(0, 2), "before": rng.random() < 0.5, "alone": step == nsteps - 1}
         elif kind == "mark_position":
-            o = {"op": kind, "pos": rng.randint(0, total + 1)}
+            o = {"op": kind, "pos": rng.randint(0, total + 1), "alone": step == nsteps - 1}
         elif kind == "mark_range":
             a = rng.randint(0, total + 1)
             o = {"op": kind, "a": a, "b": rng.randint(a, total + 2), "alone": step == nsteps - 1}
